@@ -62,6 +62,38 @@ LayoutOK(g, ideal, LD, LG) ==
                  (IF \E e \in Edges(g) : {g.edges[e][1], g.edges[e][2]} = {s, t} THEN 1
                   ELSE IF M[(s - 1) * g.n + t] = UNREACH THEN 0 ELSE 2)
 
+\* ---- beyond the statement: cola::connectedComponents / separateComponents ----
+\* cs[c] = [ids |-> node ids in the component's local order, edges |-> <<i, j>> local indices, rectsok |-> 1 iff rects[k] is node ids[k]'s rectangle]
+\* rb / ra : rectangles <<x, X, y, Y>> (1/1024 units) before / after separateComponents
+IdSet(c) == {c.ids[i] : i \in DOMAIN c.ids}
+PairCount(sq, u, v) == Cardinality({i \in DOMAIN sq : {sq[i][1], sq[i][2]} = {u, v}})
+ComponentsOK(g, cs) ==
+    /\ \A c \in DOMAIN cs : Len(cs[c].ids) > 0 /\ Cardinality(IdSet(cs[c])) = Len(cs[c].ids) /\ cs[c].rectsok = 1
+    /\ UNION {IdSet(cs[c]) : c \in DOMAIN cs} = Nodes(g)
+    /\ \A c \in DOMAIN cs, d \in DOMAIN cs : c # d => IdSet(cs[c]) \cap IdSet(cs[d]) = {}
+    \* a component is exactly the set of nodes reachable from its first node
+    /\ \A c \in DOMAIN cs : IdSet(cs[c]) = Closure(g, {cs[c].ids[1]}, AllOk(g))
+    \* every edge of the graph appears, re-indexed, in exactly one component, with its multiplicity
+    /\ \A c \in DOMAIN cs : \A e \in DOMAIN cs[c].edges : cs[c].edges[e][1] \in DOMAIN cs[c].ids /\ cs[c].edges[e][2] \in DOMAIN cs[c].ids
+    /\ \A c \in DOMAIN cs :
+          LET mapped == [e \in DOMAIN cs[c].edges |-> <<cs[c].ids[cs[c].edges[e][1]], cs[c].ids[cs[c].edges[e][2]]>>]
+              own    == SelectSeq(g.edges, LAMBDA ed : ed[1] \in IdSet(cs[c]))
+          IN  /\ Len(mapped) = Len(own)
+              /\ \A e \in DOMAIN own : PairCount(mapped, own[e][1], own[e][2]) = PairCount(own, own[e][1], own[e][2])
+AbsV(x) == IF x < 0 THEN -x ELSE x
+SeparateOK(cs, rb, ra, border) ==
+    LET bb(c) == LET S == IdSet(cs[c]) IN
+                 << MinS({ra[i][1] : i \in S}), Max({ra[i][2] : i \in S}), MinS({ra[i][3] : i \in S}), Max({ra[i][4] : i \in S}) >>
+        ov(a, b, lo, hi) == (IF a[hi] < b[hi] THEN a[hi] ELSE b[hi]) - (IF a[lo] > b[lo] THEN a[lo] ELSE b[lo])
+    IN  \* every component moves rigidly, sizes unchanged
+        /\ \A c \in DOMAIN cs : LET f == cs[c].ids[1] IN \A i \in IdSet(cs[c]) :
+              /\ AbsV((ra[i][1] - rb[i][1]) - (ra[f][1] - rb[f][1])) <= 1 /\ AbsV((ra[i][2] - rb[i][2]) - (ra[f][2] - rb[f][2])) <= 1
+              /\ AbsV((ra[i][3] - rb[i][3]) - (ra[f][3] - rb[f][3])) <= 1 /\ AbsV((ra[i][4] - rb[i][4]) - (ra[f][4] - rb[f][4])) <= 1
+        \* the components' bounding boxes no longer overlap
+        /\ \A c \in DOMAIN cs, d \in DOMAIN cs : c < d => (ov(bb(c), bb(d), 1, 2) <= 1 \/ ov(bb(c), bb(d), 3, 4) <= 1)
+        \* the global border settings are restored
+        /\ border = <<0, 0>>
+
 \* ---- records ----------------------------------------------------------------
 Data == JsonDeserialize(IOEnv.SPRECS)
 Recs == Data.recs
@@ -76,6 +108,8 @@ Tags(r) ==
         \cup (IF judge(r.fw) /\ Symmetric(g, r.fw) THEN {} ELSE {"floyd_warshall"})
         \cup (IF r.dij = r.john /\ r.john = r.fw THEN {} ELSE {"disagree"})
         \cup (IF LayoutOK(g, r.ideal, r.ld, r.lg) THEN {} ELSE {"layout-matrix"})
+        \cup (IF ComponentsOK(g, r.comps) THEN {} ELSE {"components"})
+        \cup (IF SeparateOK(r.comps, r.rb, r.ra, r.border) THEN {} ELSE {"separate-components"})
 NonTrivial(r) == \E e \in DOMAIN r.edges : r.edges[e][1] # r.edges[e][2]
 Special(r) == (\E e \in DOMAIN r.edges : r.edges[e][1] = r.edges[e][2])
               \/ (\E e \in DOMAIN r.edges, f \in DOMAIN r.edges : e # f /\ {r.edges[e][1], r.edges[e][2]} = {r.edges[f][1], r.edges[f][2]})
